@@ -1,12 +1,12 @@
 SPECIFICATION Spec
 CONSTANTS
   MaxArr = 3
-  MaxTime = 2500
+  MaxTime = 3000
   EagerKeys = FALSE
   SplitByFlush = FALSE
   KeepSubs = FALSE
   FlushVaries = TRUE
-  Kinds = {"P", "S1", "A1"}
-  TTLs = {0, 2}
+  Kinds = {"P", "PS", "S1", "S2", "A1", "A2"}
+  TTLs = {0, 1, 2}
 INVARIANTS NeverLonger NotEarlier Present WellFormed KeysNeeded SubsNeeded
 CHECK_DEADLOCK FALSE
